@@ -406,6 +406,9 @@ def _trim_start(ctx, a, c):
     ch = z3.simplify(a[1])
     if not z3.is_bv_value(ch):
         raise Inconclusive("trim pattern")
+    known = getattr(ctx, "trim_registry", {}).get((s.get_id(), "start", chr(ch.as_long())))
+    if known is not None:
+        return known
     cs = z3.StringVal(chr(ch.as_long()))
     # bounded: strip up to 4 leading occurrences, assume no more (checked)
     r = s
@@ -419,6 +422,9 @@ def _trim_start(ctx, a, c):
 def _trim_end(ctx, a, c):
     s = as_str(ctx, a[0])
     ch = z3.simplify(a[1])
+    known = getattr(ctx, "trim_registry", {}).get((s.get_id(), "end", chr(ch.as_long())))
+    if known is not None:
+        return known
     cs = z3.StringVal(chr(ch.as_long()))
     r = s
     for _ in range(4):
@@ -499,7 +505,7 @@ def _arguments_new(ctx, a, c):
     return FmtArguments(pieces, args.f if isinstance(args, Agg) else [])
 
 
-@model("Arguments::from_str", "Arguments::new_const", doc="core::fmt: literal-only format string")
+@model("Arguments::from_str", "Arguments::new_const", "Arguments::from_str_nonconst", doc="core::fmt: literal-only format string")
 def _arguments_const(ctx, a, c):
     s = deref(ctx, a[0])
     if isinstance(s, Agg):
@@ -632,7 +638,9 @@ class AuthorityV:
     host is a reg-name / IPv4 literal, or a bracketed IPv6 literal (brackets are part of host(),
     authority.rs `fn host`); port() = text after the last ':' parsed as u16 (authority.rs `port`)."""
 
-    def __init__(self, host, has_port, port, port_text=None):
+    def __init__(self, host, has_port, port, port_text=None, inner=None, bracketed=None):
+        self.inner = inner if inner is not None else host  # host without IPv6 brackets
+        self.bracketed = bracketed if bracketed is not None else z3.BoolVal(False)
         self.host = host  # z3 String, includes brackets for IPv6
         self.has_port = has_port  # z3 Bool
         self.port = port  # z3 BitVec 16
@@ -1128,3 +1136,116 @@ def _iter_next(ctx, a, c):
 @model("<Iter as IntoIterator>::into_iter", "<Enumerate as IntoIterator>::into_iter", "<IntoIter as IntoIterator>::into_iter", doc="core: iterators are their own IntoIterator")
 def _iter_into_iter(ctx, a, c):
     return a[0]
+
+
+@model("Into::into", "From::from", doc="core: the conversions that occur (&str -> String / Box<str>, error boxing) preserve the value")
+def _into(ctx, a, c):
+    return a[0]
+
+
+# ================================================================================================
+# rustls / tokio-rustls (client side): only what hyperdriver's own decisions touch
+# ================================================================================================
+_AL = z3.Union(z3.Range("a", "z"), z3.Range("A", "Z"), z3.Re(z3.StringVal("_")))
+_DG = z3.Range("0", "9")
+_ALNUM_ = z3.Union(_AL, _DG)
+_HY = z3.Re(z3.StringVal("-"))
+# a label: no leading/trailing hyphen, non-empty (rustls-pki-types server_name.rs `validate`)
+_LABEL = z3.Union(_ALNUM_, z3.Concat(_ALNUM_, z3.Star(z3.Union(_ALNUM_, _HY)), _ALNUM_))
+_NUM_LABEL = z3.Plus(_DG)
+_DOT = z3.Re(z3.StringVal("."))
+# last label must not be numeric-only; one trailing dot is accepted
+_M = z3.Union(_ALNUM_, _HY)
+_LAST = z3.Union(_AL, z3.Concat(_AL, z3.Star(_M), _ALNUM_), z3.Concat(z3.Plus(_DG), _AL), z3.Concat(z3.Plus(_DG), _AL, z3.Star(_M), _ALNUM_),
+                 z3.Concat(z3.Plus(_DG), _HY, z3.Star(_M), _ALNUM_))
+DNS_NAME = z3.Concat(z3.Star(z3.Concat(_LABEL, _DOT)), _LAST, z3.Option(_DOT))
+_OCTET = z3.Union(_DG, z3.Concat(z3.Range("1", "9"), _DG), z3.Concat(z3.Re(z3.StringVal("1")), _DG, _DG),
+                  z3.Concat(z3.Re(z3.StringVal("2")), z3.Range("0", "4"), _DG), z3.Concat(z3.Re(z3.StringVal("25")), z3.Range("0", "5")))
+IPV4 = z3.Concat(_OCTET, _DOT, _OCTET, _DOT, _OCTET, _DOT, _OCTET)
+
+
+_HEX = z3.Union(z3.Range("0", "9"), z3.Range("a", "f"), z3.Range("A", "F"))
+_H16 = z3.Loop(_HEX, 1, 4)
+_GROUPS = z3.Concat(_H16, z3.Star(z3.Concat(z3.Re(z3.StringVal(":")), _H16)))
+# compressed IPv6 literals of at most 12 characters (then at most 7 groups are written, as `::` requires);
+# the uncompressed form needs >= 15 characters and is outside the bound
+IPV6_SHORT = z3.Concat(z3.Option(_GROUPS), z3.Re(z3.StringVal("::")), z3.Option(_GROUPS))
+
+
+def valid_server_name(s, ctx=None):
+    """z3 predicate: rustls accepts `s` as a ServerName. For strings registered by the input
+    builder (ctx.sn_registry) this is an abstract Bool whose definition (the regex below) is
+    added lazily, only to queries that would otherwise report a counterexample."""
+    if ctx is not None:
+        known = getattr(ctx, "sn_registry", {}).get(s.get_id())
+        if known is not None:
+            return known
+    return valid_server_name_def(s)
+
+
+def valid_server_name_def(s):
+    """DNS names and IPv4 exactly, IPv6 literals of <= 12 characters exactly (core::net parser
+    grammar), anything with brackets: no"""
+    has_bracket = z3.Or(z3.Contains(s, z3.StringVal("[")), z3.Contains(s, z3.StringVal("]")))
+    return z3.And(z3.Not(has_bracket), z3.Or(z3.InRe(s, DNS_NAME), z3.InRe(s, IPV4), z3.And(z3.InRe(s, IPV6_SHORT), z3.Length(s) <= 12)), z3.Length(s) <= 253)
+
+
+def bare_host(host_or_auth):
+    """URI host without the brackets of an IPv6 literal"""
+    if isinstance(host_or_auth, AuthorityV):
+        return host_or_auth.inner
+    host = host_or_auth
+    return z3.If(z3.PrefixOf(z3.StringVal("["), host), z3.SubString(host, 1, z3.Length(host) - 2), host)
+
+
+class ServerNameV:
+    def __init__(self, text):
+        self.text = text
+
+    def clone_model(self, ctx):
+        return self
+
+
+@model("<ServerName as TryFrom>::try_from", doc="rustls-pki-types 1.11 server_name.rs: Ok iff the text is a valid DNS name (labels of [A-Za-z0-9_-], no empty label, no leading/trailing hyphen, last label not numeric-only, optional trailing dot) or an IP literal WITHOUT brackets; modelled exactly for names and IPv4, and as 'never valid' for any text containing '[' or ']'")
+def _server_name_try_from(ctx, a, c):
+    s = as_str(ctx, a[0])
+    known = getattr(ctx, "sn_registry", {}).get(s.get_id())
+    if known is None:
+        has_bracket = z3.Or(z3.Contains(s, z3.StringVal("[")), z3.Contains(s, z3.StringVal("]")))
+        has_colon = z3.Contains(s, z3.StringVal(":"))
+        # IPv6 literals longer than 12 characters are outside the modelled grammar
+        if ctx.feasible(z3.And(has_colon, z3.Not(has_bracket), z3.Length(s) > 12)):
+            raise Inconclusive("ServerName::try_from on an IPv6 literal longer than 12 characters is not modelled")
+    valid = valid_server_name(s, ctx)
+    if ctx.branch(valid, "server_name_valid"):
+        return ok(ServerNameV(s))
+    return err(Opaque("InvalidDnsNameError"))
+
+
+@model("ServerName::to_owned", doc="rustls-pki-types: owned copy")
+def _server_name_to_owned(ctx, a, c):
+    return deref(ctx, a[0])
+
+
+@model("<TlsConnector as From>::from", doc="tokio-rustls: connector from a client config")
+def _tls_connector_from(ctx, a, c):
+    return Opaque("TlsConnector")
+
+
+class TlsConnectV:
+    """tokio_rustls::Connect<IO>: the pending handshake; remembers the server name it will offer/verify"""
+
+    def __init__(self, name, io):
+        self.name = name
+        self.io = io
+
+
+@model("TlsConnector::connect", doc="tokio-rustls: starts a client handshake that offers `domain` as SNI and verifies the certificate against it")
+def _tls_connect(ctx, a, c):
+    ctx.events.append(("tls_connect", a[1]))
+    return TlsConnectV(a[1], a[2])
+
+
+@model("<Arc as Clone>::clone", "Arc::clone", doc="alloc: Arc clone shares the value")
+def _arc_clone(ctx, a, c):
+    return deref(ctx, a[0])
